@@ -8,10 +8,11 @@ Local Arguments exec : simpl never.
 Lemma foldr_rq_add_must_fields l s :
   s_must (foldr rq_add_must s l) = s_must s ∪ list_to_set l
   ∧ s_dp (foldr rq_add_must s l) = s_dp s ∧ s_trk (foldr rq_add_must s l) = s_trk s
-  ∧ s_des (foldr rq_add_must s l) = s_des s ∧ s_dirty (foldr rq_add_must s l) = s_dirty s.
+  ∧ s_des (foldr rq_add_must s l) = s_des s ∧ s_dirty (foldr rq_add_must s l) = s_dirty s
+  ∧ s_filter (foldr rq_add_must s l) = s_filter s.
 Proof.
-  induction l as [|n l (E1 & E2 & E3 & E4 & E5)]; simpl; [split_and!; try done; set_solver|].
-  unfold rq_add_must. case_bool_decide; simpl; rewrite ?E1, ?E2, ?E3, ?E4, ?E5; split_and!; try done; set_solver.
+  induction l as [|n l (E1 & E2 & E3 & E4 & E5 & E6)]; simpl; [split_and!; try done; set_solver|].
+  unfold rq_add_must. case_bool_decide; simpl; rewrite ?E1, ?E2, ?E3, ?E4, ?E5, ?E6; split_and!; try done; set_solver.
 Qed.
 
 Lemma check_order_NoDup c d1 d2 ns : check_order c d1 d2 ns = true -> NoDup ns.
@@ -59,6 +60,7 @@ Proof.
   set (ns := (a_blocks a).*1) in *. set (script := concat (a_blocks a).*2) in *.
   destruct (wb_foot _ _ _ _ _ Ewb Hs) as (B1 & B2 & B3 & B4 & B5 & B6 & B7 & B8).
   destruct (write_blocks_good _ _ _ _ _ _ Ewb Hs) as [W1 Hdes].
+  destruct (blocks_safe _ _ _ _ _ _ Ewb (WF_WFd _ Hs)) as [(_ & _ & _ & Bf & _) _].
   pose proof (run_script_knorm script k O (a_inj a) Hn B7) as Hn1.
   pose proof (WF_no_temp_des _ Hs) as Hntd.
   assert (∀ m, owned m = true → good1 s k m) as Hg.
@@ -91,13 +93,15 @@ Proof.
       eapply acc_local; [..|exact Ha]; [by rewrite E1|by rewrite E2|by apply Hk_nontemp]. }
   destruct (a_wfail a || pf) eqn:Hf; simplify_eq.
   - (* the session failed: every set written in it is queued for re-listing *)
-    destruct (foldr_rq_add_must_fields ns s1) as (F1 & F2 & F3 & F4 & F5).
+    destruct (foldr_rq_add_must_fields ns s1) as (F1 & F2 & F3 & F4 & F5 & F6).
     split; [|split; [done|done]].
     intros m Ho. destruct (decide (m ∈ ns)) as [Hin|Hnin].
     { right; left. rewrite F1. set_solver. }
     destruct (Hrest (foldr rq_add_must s1 ns) m Ho Hnin F2 F3 F4) as [?|Ha]; [rewrite F1; set_solver|by (right; left)|].
     right; right. split; [done|].
-    destruct (Hg m Ho) as [_ Hd]. unfold dirty_ok in *. rewrite F4, F5, B1, B2, F3.
+    destruct (Hg m Ho) as [_ Hd]. unfold dirty_ok in *.
+    assert (needed (foldr rq_add_must s1 ns) m = needed s m) as -> by (unfold needed; by rewrite F6, Bf).
+    rewrite F4, F5, B1, B2, F3.
     destruct (is_temp m) eqn:Ht.
     + rewrite (Hntd m Ht). intros d p [? ?]. done.
     + destruct (B3 m Hnin Ht) as [_ ->]. done.
@@ -137,14 +141,15 @@ Proof.
     + destruct (Hex m Hin) as (dm & md & E1 & E2 & E3 & E4). destruct (Hns m Hin) as (_ & Ht & _).
       split.
       * unfold acc. rewrite Ht. simpl. rewrite E2, E4. split; [done|eauto].
-      * unfold dirty_ok. simpl. rewrite E3. intros d p _ Heq Hne. by simplify_eq.
+      * unfold dirty_ok. simpl. rewrite E3. intros d p _ _ Heq Hne. by simplify_eq.
     + destruct (Hrest (set_dirty (λ _, ∅) s1) m Ho Hnin eq_refl eq_refl eq_refl) as [?|Ha]; [done|simpl in *; set_solver|].
       split; [done|].
       destruct (Hg m Ho) as [_ Hd]. unfold dirty_ok in *. simpl. rewrite B1.
       destruct (is_temp m) eqn:Ht.
       * rewrite (Hntd m Ht). intros d p [? ?]. done.
-      * destruct (B3 m Hnin Ht) as [_ ->]. intros d p Hdes' Htrk Hne. exfalso.
-        specialize (Hd d p Hdes' Htrk Hne). apply Hnin.
+      * destruct (B3 m Hnin Ht) as [_ ->]. intros d p Hdes' Hnd' Htrk Hne. exfalso.
+        assert (needed s m = true) as Hnd'' by (unfold needed in *; simpl in Hnd'; by rewrite <- Bf).
+        specialize (Hd d p Hdes' Hnd'' Htrk Hne). apply Hnin.
         assert (m ∈ dirty1 s) as Hd1' by (unfold dirty1; apply elem_of_intersection; split; [done|by apply elem_of_dom]).
         assert (m ∈ dirty1 s ∪ dirty2 s) as Hd1'' by set_solver.
         apply Hd1 in Hd1''. by apply elem_of_list_to_set in Hd1''.
@@ -153,8 +158,8 @@ Qed.
 (* ---------------------------------------------------------------- the retry loop, ApplyDeletions *)
 Lemma V_fields s s' k :
   s_must s' = s_must s -> s_dp s' = s_dp s -> s_trk s' = s_trk s -> s_des s' = s_des s -> s_dirty s' = s_dirty s ->
-  V s k -> V s' k.
-Proof. intros E1 E2 E3 E4 E5 H m Hm. eapply okx_fields; [..|exact (H m Hm)]; done. Qed.
+  s_filter s' = s_filter s -> V s k -> V s' k.
+Proof. intros E1 E2 E3 E4 E5 E6 H m Hm. eapply okx_fields; [..|exact (H m Hm)]; done. Qed.
 
 (* Felix's view of the kernel: accurate for every set not queued for re-listing, unless a full resync is pending *)
 Definition J (s : st) (k : kernel) : Prop := WF s ∧ knorm k ∧ (s_full s = true ∨ V s k).
@@ -204,7 +209,8 @@ Proof.
   - case_bool_decide; [|done]. by simplify_eq.
   - destruct (bool_decide (n ∈ _) && _); [|done].
     destruct (if inj then None else exec k (CDestroy n)) as [k1|].
-    + destruct rest; [|done]. simplify_eq. destruct t; done.
+    + destruct rest; [|done]. simplify_eq. destruct t; [done|]. simpl.
+      destruct (forget_fields n (rq_remove n s)) as (_ & _ & _ & _ & _ & F6 & _). by rewrite F6.
     + set (s1 := if t then s else match s_dp s !! n with Some (m, (_, lf)) => set_dp <[n:=(m, (true, lf))]> s | None => s end) in *.
       destruct (del_pass t rest ({[n]} ∪ dn) k s1) as [[[[s2 k2] ev2] c2]|] eqn:Er; [|done]. simplify_eq.
       rewrite (IH _ _ _ _ _ _ _ Er). subst s1. repeat case_match; done.
@@ -251,18 +257,22 @@ Qed.
 Lemma V_add_or_replace id m ms s k : V s k -> V (add_or_replace id m ms s) k.
 Proof.
   intros Hv. unfold add_or_replace. set (n := main_name id).
-  apply (V_upd n _ s k Hv); [done| |].
-  - intros x Hx. unfold lstate. simpl. by rewrite !lookup_insert_ne.
-  - unfold acc. simpl. rewrite lookup_insert. change (is_temp n) with false. cbv iota.
-    destruct (s_dp s !! n) as [[dm fl]|], (k !! n) as [[km kms]|]; try done.
-    + intros [E [d Hd]]. rewrite Hd. split; [done|eauto].
-    + intros Hz d q Hq. simplify_eq. destruct (s_trk s !! n) as [[d0 p0]|] eqn:E; [by eapply Hz|done].
+  apply (V_upd n _ s k Hv).
+  - destruct (needed s n); done.
+  - intros x Hx. unfold lstate, needed. destruct (needed_f (s_filter s) n); simpl; by rewrite !lookup_insert_ne.
+  - assert (∀ X, s_dp X = s_dp s → s_trk X = s_trk s →
+            acc s k n → acc (set_trk <[n:=(ms, match s_trk s !! n with Some (_, p) => p | None => ∅ end)]> X) k n) as Hx.
+    { intros X E1 E2. unfold acc. simpl. rewrite E1, E2, lookup_insert. change (is_temp n) with false. cbv iota.
+      destruct (s_dp s !! n) as [[dm fl]|], (k !! n) as [[km kms]|]; try done.
+      + intros [E [d Hd]]. rewrite Hd. split; [done|eauto].
+      + intros Hz d q Hq. simplify_eq. destruct (s_trk s !! n) as [[d0 p0]|] eqn:E; [by eapply Hz|done]. }
+    destruct (needed s n); by apply Hx.
 Qed.
 
 Lemma V_remove id s k : V s k -> V (remove_ipset id s) k.
 Proof.
   intros Hv. unfold remove_ipset. set (n := main_name id).
-  assert (∀ x, x ≠ n → lstate (set_des (delete n) s) x = lstate s x) as Hl0.
+  assert (∀ x, x ≠ n → lstate (set_all (delete n) (set_des (delete n) s)) x = lstate s x) as Hl0.
   { intros x Hx. unfold lstate. simpl. by rewrite lookup_delete_ne. }
   destruct (s_dp s !! n) as [dmeta|] eqn:Edp.
   - destruct (s_trk s !! n) as [[d p0]|] eqn:Et.
@@ -287,8 +297,8 @@ Lemma V_change add id ms s k : V s k -> V (change_members add id ms s) k.
 Proof.
   intros Hv. unfold change_members. set (n := main_name id).
   assert (∀ sx, s_must sx = s_must s → s_dp sx = s_dp s → s_trk sx = s_trk s → s_des sx = s_des s →
-          s_dirty sx = s_dirty s → V sx k) as Hsame by (intros; by eapply V_fields).
-  destruct (s_des s !! n); [|by apply Hsame].
+          s_dirty sx = s_dirty s → s_filter sx = s_filter s → V sx k) as Hsame by (intros; by eapply V_fields).
+  destruct (s_all s !! n); [|by apply Hsame].
   case_bool_decide; [done|].
   destruct (s_trk s !! n) as [[d p0]|] eqn:Et; [|by apply Hsame].
   apply (V_upd n _ s k Hv); [done| |].
@@ -299,45 +309,113 @@ Proof.
     + intros Hz d' q' Hq. simplify_eq. by eapply Hz.
 Qed.
 
-(* ---------------------------------------------------------------- every history (kernel changed by Felix only) *)
-Inductive reachF : st → kernel → gmap N (meta * gset member) → Prop :=
-| f_init k0 b : knorm k0 → reachF (set_fix2 b init_st) k0 ∅
-| f_add s k D id m ms : reachF s k D → reachF (add_or_replace id m ms s) k (<[id := (m, ms)]> D)
-| f_remove s k D id : reachF s k D → reachF (remove_ipset id s) k (delete id D)
-| f_change s k D add id ms :
-    reachF s k D →
-    reachF (change_members add id ms s) k (alter (λ v, (v.1, if add then v.2 ∪ ms else v.2 ∖ ms)) id D)
-| f_resync s k D : reachF s k D → reachF (queue_resync s) k D
-| f_updates s k D obs budget s' k' ev :
-    reachF s k D → apply_updates true obs budget k s = Some (s', k', ev) → reachF s' k' D
-| f_deletions s k D tries s' k' ev rs :
-    reachF s k D → apply_deletions tries k s = Some (s', k', ev, rs) → reachF s' k' D.
-
-Lemma reachF_reach s k D : reachF s k D -> reach true s k D.
+(* SetFilter: the dirtiness of every added set is recomputed under the new filter *)
+Lemma filter_fold_dirty l : ∀ s0 m d p,
+  m ∈ l.*1 -> needed s0 m = true -> s_trk s0 !! m = Some (d, p) -> d ≠ p ->
+  m ∈ s_dirty (foldr (λ nm s, filter_step nm.1 nm.2 s) s0 l).
 Proof.
-  induction 1; [apply r_init|by apply r_add|by apply r_remove|by apply r_change|by apply r_resync
-               |eapply r_updates; [eassumption|eassumption]|eapply r_deletions; [eassumption|eassumption]].
+  induction l as [|[a ma] l IH]; intros s0 m d p Hin Hn Ht Hne; simpl in *; [set_solver|].
+  set (s2 := foldr (λ nm s, filter_step nm.1 nm.2 s) s0 l) in *.
+  unfold filter_step.
+  set (s3 := if needed s2 a then set_des <[a:=ma]> s2 else set_des (delete a) s2).
+  assert (s_trk s3 = s_trk s0 ∧ s_filter s3 = s_filter s0 ∧ s_dirty s3 = s_dirty s2) as (E1 & E2 & E3).
+  { subst s3. assert (s_trk s2 = s_trk s0 ∧ s_filter s2 = s_filter s0) as [G1 G2].
+    { subst s2. clear. induction l as [|[b mb] l [I1 I2]]; simpl; [done|]. unfold filter_step.
+      match goal with |- context [upd_dirty ?x ?y] => destruct (fields_upd_dirty x y) as (_ & _ & F3 & _ & _ & _ & F7 & _) end.
+      rewrite F3, F7. destruct (needed _ b); simpl; done. }
+    destruct (needed s2 a); simpl; done. }
+  destruct (decide (m = a)) as [->|Hma].
+  - unfold upd_dirty. rewrite E1, Ht. unfold needed in *. rewrite E2, Hn.
+    rewrite (bool_decide_eq_false_2 (d = p)) by done. simpl. set_solver.
+  - assert (m ∈ s_dirty s2) as Hm2 by (eapply IH; [set_solver|done|done|done]).
+    unfold upd_dirty. destruct (s_trk s3 !! a) as [[d' p']|]; [destruct (_ && _)|]; simpl; rewrite E3; set_solver.
 Qed.
 
-Lemma reachF_J s k D : reachF s k D -> J s k.
+Lemma V_set_filter f s k : WF s -> V s k -> V (set_filter f s) k.
 Proof.
-  intros H. pose proof (reachF_reach _ _ _ H) as Hr. destruct (reach_inv _ _ _ _ Hr) as [W _].
-  split; [done|]. clear W Hr.
-  induction H as [k0 b Hk|s k D id m ms H IH|s k D id H IH|s k D add id ms H IH|s k D H IH
-                 |s k D obs budget s' k' ev H IH Hu|s k D tries s' k' ev rs H IH Hd].
+  intros Hs Hv. unfold set_filter.
+  assert (∀ fnew, V (foldr (λ nm s, filter_step nm.1 nm.2 s) (set_flt fnew s) (map_to_list (s_all s))) k) as Hbody.
+  { intros fnew m Ho.
+    destruct (filter_fold (map_to_list (s_all s)) (set_flt fnew s) (NoDup_fst_map_to_list _))
+      as (E1 & E2 & E3 & E4 & E5 & E6 & E7 & E8).
+    pose proof (filter_fold_dirty (map_to_list (s_all s)) (set_flt fnew s) m) as Hd.
+    set (s' := foldr _ (set_flt fnew s) _) in *. simpl in E1, E2, E3, E4, E5, E6, E7.
+    rewrite list_to_map_to_list in E8.
+    destruct (Hv m Ho) as [?|[Hq|[Ha _]]]; [set_solver|right; left; by rewrite E5|].
+    right; right. split.
+    - unfold acc in *. by rewrite E4, E3.
+    - unfold dirty_ok. intros d p Hdes Hn Ht Hne. rewrite E3 in Ht.
+      unfold needed in Hn. rewrite E1 in Hn. simpl in Hn.
+      rewrite E8 in Hdes. destruct (s_all s !! m) as [mm|] eqn:Ea.
+      + eapply Hd; [|done|done|done]. apply elem_of_list_fmap. exists (m, mm). split; [done|].
+        by apply elem_of_map_to_list.
+      + simpl in Hdes. destruct (s_des s !! m) eqn:Ed; [|by destruct Hdes].
+        destruct (wf_all _ Hs) as (W1 & _). destruct (W1 _ _ Ed). congruence. }
+  destruct (s_filter s); [apply Hbody|]. destruct f; [apply Hbody|done].
+Qed.
+
+Lemma full_set_filter f s : s_full (set_filter f s) = s_full s.
+Proof.
+  unfold set_filter.
+  assert (∀ x, s_full (foldr (λ nm s, filter_step nm.1 nm.2 s) (set_flt x s) (map_to_list (s_all s))) = s_full s) as Hb.
+  { intros x. destruct (filter_fold (map_to_list (s_all s)) (set_flt x s) (NoDup_fst_map_to_list _)) as (_&_&_&_&_&_&E7&_).
+    by rewrite E7. }
+  destruct (s_filter s); [apply Hb|]. destruct f; [apply Hb|done].
+Qed.
+
+(* ---------------------------------------------------------------- every history (kernel changed by Felix only) *)
+Inductive reachFA : st → kernel → gmap N (meta * gset member) → option (gset name) → Prop :=
+| fa_init k0 b : knorm k0 → reachFA (set_fix2 b init_st) k0 ∅ None
+| fa_add s k A F id m ms : reachFA s k A F → reachFA (add_or_replace id m ms s) k (<[id := (m, ms)]> A) F
+| fa_remove s k A F id : reachFA s k A F → reachFA (remove_ipset id s) k (delete id A) F
+| fa_change s k A F add id ms :
+    reachFA s k A F →
+    reachFA (change_members add id ms s) k (alter (λ v, (v.1, if add then v.2 ∪ ms else v.2 ∖ ms)) id A) F
+| fa_resync s k A F : reachFA s k A F → reachFA (queue_resync s) k A F
+| fa_filter s k A F f : reachFA s k A F → reachFA (set_filter f s) k A f
+| fa_updates s k A F obs budget s' k' ev :
+    reachFA s k A F → apply_updates true obs budget k s = Some (s', k', ev) → reachFA s' k' A F
+| fa_deletions s k A F tries s' k' ev rs :
+    reachFA s k A F → apply_deletions tries k s = Some (s', k', ev, rs) → reachFA s' k' A F.
+
+Definition reachF (s : st) (k : kernel) (D : gmap N (meta * gset member)) : Prop :=
+  ∃ A F, reachFA s k A F ∧ D = eff A F.
+
+Lemma reachFA_reachA s k A F : reachFA s k A F -> reachA true s k A F.
+Proof.
+  induction 1; [apply ra_init|by apply ra_add|by apply ra_remove|by apply ra_change|by apply ra_resync|by eapply ra_filter
+               |eapply ra_updates; [eassumption|eassumption]|eapply ra_deletions; [eassumption|eassumption]].
+Qed.
+Lemma reachF_reach s k D : reachF s k D -> reach true s k D.
+Proof. intros (A & F & H & ->). exists A, F. split; [by apply reachFA_reachA|done]. Qed.
+
+Lemma reachFA_J s k A F : reachFA s k A F -> J s k.
+Proof.
+  intros H. destruct (reachA_inv _ _ _ _ _ (reachFA_reachA _ _ _ _ H)) as [W _].
+  split; [done|]. clear W.
+  induction H as [k0 b Hk|s k A F id m ms H IH|s k A F id H IH|s k A F add id ms H IH|s k A F H IH|s k A F f H IH
+                 |s k A F obs budget s' k' ev H IH Hu|s k A F tries s' k' ev rs H IH Hd].
   - split; [done|by left].
   - destruct IH as [Hn Hv]. split; [done|]. destruct Hv as [Hf|Hv]; [left|right; by apply V_add_or_replace].
-    unfold add_or_replace, upd_dirty. repeat case_match; done.
+    unfold add_or_replace. match goal with |- context [upd_dirty ?x ?y] => destruct (fields_upd_dirty x y) as (_&_&_&_&_&_&_&->) end.
+    destruct (needed s _); done.
   - destruct IH as [Hn Hv]. split; [done|]. destruct Hv as [Hf|Hv]; [left|right; by apply V_remove].
-    unfold remove_ipset, upd_dirty. repeat case_match; done.
+    unfold remove_ipset. repeat case_match; try done;
+      match goal with |- context [upd_dirty ?x ?y] => destruct (fields_upd_dirty x y) as (_&_&_&_&_&_&_&->) end; done.
   - destruct IH as [Hn Hv]. split; [done|]. destruct Hv as [Hf|Hv]; [left|right; by apply V_change].
-    unfold change_members, upd_dirty. repeat case_match; done.
+    unfold change_members. repeat case_match; try done;
+      match goal with |- context [upd_dirty ?x ?y] => destruct (fields_upd_dirty x y) as (_&_&_&_&_&_&_&->) end; done.
   - destruct IH as [Hn Hv]. split; [done|]. destruct Hv as [Hf|Hv]; [by left|right]. eapply V_fields; [..|exact Hv]; done.
-  - destruct (reach_inv _ _ _ _ (reachF_reach _ _ _ H)) as [W _].
+  - destruct (reachA_inv _ _ _ _ _ (reachFA_reachA _ _ _ _ H)) as [W _].
+    destruct IH as [Hn Hv]. split; [done|]. destruct Hv as [Hf|Hv]; [left|right; by apply V_set_filter].
+    by rewrite full_set_filter.
+  - destruct (reachA_inv _ _ _ _ _ (reachFA_reachA _ _ _ _ H)) as [W _].
     destruct (apply_updates_loop_J _ _ _ _ _ _ _ _ Hu (conj W IH)) as (_ & ? & ?). done.
-  - destruct (reach_inv _ _ _ _ (reachF_reach _ _ _ H)) as [W _].
+  - destruct (reachA_inv _ _ _ _ _ (reachFA_reachA _ _ _ _ H)) as [W _].
     destruct (apply_deletions_J _ _ _ _ _ _ _ Hd (conj W IH)) as (_ & ? & ?). done.
 Qed.
+Lemma reachF_J s k D : reachF s k D -> J s k.
+Proof. intros (A & F & H & _). by eapply reachFA_J. Qed.
 
 (* ---------------------------------------------------------------- convergence *)
 (* Felix has nothing left to do: no resync pending or queued, nothing dirty, no metadata to fix, nothing to delete *)
@@ -376,6 +454,7 @@ Proof.
       (* not dirty: the view's members are the desired ones *)
       assert (d = kms) as ->.
       { destruct (decide (d = kms)) as [|Hne]; [done|]. exfalso.
+        assert (needed s n = true) as Hnd by (destruct (wf_all _ W) as (W1 & _); by destruct (W1 _ _ Hdes)).
         assert (n ∈ s_dirty s) as Hin by (eapply Hdy; eauto).
         assert (n ∈ dirty1 s ∪ dirty2 s); [|set_solver].
         apply elem_of_union_l. unfold dirty1. apply elem_of_intersection. split; [done|]. apply elem_of_dom; eauto. }
@@ -455,7 +534,10 @@ Proof.
     destruct (if inj then None else exec k (CDestroy n)) as [k1|].
     + destruct rest; [|done]. simplify_eq.
       assert (∀ x, is_Some (s_des s !! x) → x ≠ n) as Hne by (intros x [? Hx] ->; congruence).
-      destruct t; simpl; (split; [done|]; split; [done|]; intros x Hx; by rewrite lookup_delete_ne by (by apply not_eq_sym, Hne)).
+      destruct t; simpl; [split; [done|]; split; [done|]; intros x Hx; by rewrite lookup_delete_ne by (by apply not_eq_sym, Hne)|].
+      destruct (forget_fields n (rq_remove n s)) as (F1 & F2 & _ & _ & F5 & _).
+      rewrite F1, F2, F5. simpl. split; [done|]. split; [done|].
+      intros x Hx. by rewrite lookup_delete_ne by (by apply not_eq_sym, Hne).
     + set (s1 := if t then s else match s_dp s !! n with Some (m, (_, lf)) => set_dp <[n:=(m, (true, lf))]> s | None => s end) in *.
       destruct (del_pass t rest ({[n]} ∪ dn) k s1) as [[[[s2 k2] ev2] c2]|] eqn:Er; [|done]. simplify_eq.
       destruct (IH _ _ _ _ _ _ _ Er) as (A1 & A2 & A3).
@@ -491,7 +573,9 @@ Proof.
   destruct (apply_updates_loop_done _ _ _ _ _ _ _ _ Hu J0) as [?|(Hf & Hm & Hdy)]; [congruence|].
   pose proof (apply_updates_loop_J _ _ _ _ _ _ _ _ Hu J0) as (W1 & N1 & V1).
   destruct V1 as [?|V1]; [congruence|].
-  eapply (converges s2 k2 D n); [eapply f_deletions; [eapply f_updates; [exact Hr|exact Hu]|exact Hd]| |done].
+  eapply (converges s2 k2 D n); [|  |done].
+  { destruct Hr as (A & F & Hr & ->). exists A, F. split; [|done].
+    eapply fa_deletions; [eapply fa_updates; [exact Hr|exact Hu]|exact Hd]. }
   unfold apply_deletions in Hd.
   destruct (del_pass false tries ∅ k1 s1) as [[[[sx kx] evx] cx]|] eqn:E2; [|done]. simplify_eq.
   destruct (del_pass_V _ _ _ _ _ _ _ _ _ E2 W1 N1 V1) as (_ & _ & Msub).
